@@ -33,7 +33,8 @@ import LitexProofs.RoundRobin
   |   ready/addr/resp/data/last, lock counters, selects)   |                                     | partial, axl_unmapped_address, axl_response_phase_hangs,          | budget; B 2×2..3×2, t∈{7,16,100,128}, dw 32/64 |
   | AXI(Lite)InterconnectShared(timeout_cycles=t/None)     |                                     | axl_shared_wr/rd_stall_bounded, axl_healthy_bus_transparent_wr/rd,| (`axshared`) |
   |                                                        |                                     | axl_wr/rd_grant_is_roundrobin, axl_wr/rd_every_master_served,     |     |
-  |                                                        |                                     | axl_wr_ce_when_idle                                               |     |
+  |                                                        |                                     | axl_wr_ce_when_idle, axl_wr_timeout_recovers_any_beats (lone W    |     |
+  |                                                        |                                     | before AW: lock stays 0), axl_request_counter_never_wraps         |     |
   | AXIArbiter/AXIDecoder pass-through payload: aw/ar id,  | Axi.payOut (Timeout/Soc.lean)       | axi_response_id_independent_of_request, axi_forced_response_id_   | A 1×1 (2×1, 1×2 thorough), B 2×2 with random ids/ |
   |   len, w.last, b/r id (NEW)                            |                                     | zero, _matches_partial (+ witness), axi_request_payload_routed    | len/last (`axsoc`) |
   |   burst, size, lock, prot, cache, qos, region, data,   | not modelled: routed by the same    | —                                                                | —   |
@@ -1507,6 +1508,96 @@ example :
   decide
 
 end wbClosed
+
+section recoverAny
+open Axi
+
+/-! ## After a timeout: the request counters are restored (any mix of AW / W beats, incl. a lone W before its AW) -/
+
+/-- `_AXI(Lite)RequestCounter`: a response while the counter is empty leaves it empty (`response & ~empty`), a
+    request while it is full leaves it full: the 8-bit register never wraps, in either direction. -/
+theorem axl_request_counter_never_wraps (cnt : Nat) (req resp : Bool) (h : cnt ≤ 255) :
+    ctrNext cnt req resp ≤ 255 ∧ ctrNext 0 false resp = 0 ∧ ctrNext 255 req false = 255 ∧
+    (cnt ≠ 0 → ctrNext cnt false true = cnt - 1) := by
+  refine ⟨?_, by cases resp <;> simp [ctrNext], by cases req <;> simp [ctrNext], fun h0 => by simp [ctrNext, h0]⟩
+  unfold ctrNext
+  cases req <;> cases resp <;> simp <;> (try split) <;> omega
+
+/-- **axl_timeout_recovers, every beat pattern.**  State `s`: nothing outstanding, FSM in its reset state.  The owner
+    offers an AW and/or a W beat in every cycle (possibly only the W: a master that presents W before AW) and all
+    slaves stay silent.  `error` in cycle `t`; in cycle `t+1` exactly the offered beats are absorbed; in the first
+    cycle without an offered beat `B`(SLVERR) is delivered — and afterwards the interconnect is exactly as before:
+    same owner, **lock counter 0** (also when no AW was absorbed, i.e. a `B` was delivered with nothing accepted),
+    FSM in reset state.  With `axl_wr_ce_when_idle` / `axl_wr_every_master_served` the channel is then handed to
+    the next requesting master, and with `lock = 0` the decoder follows the current address again. -/
+theorem axl_wr_timeout_recovers_any_beats (c : Axi.Cfg) {t : Nat} (ht : c.t = some t) (s : DState)
+    (hgn : s.grant < c.n) (hl : s.lock = 0) (htm : s.tm = fInit t) (ys : List WBusIn) (x0 x1 x2 : WBusIn)
+    (hlen : ys.length = t)
+    (hreq : ∀ y ∈ ys ++ [x0, x1], ((y.ms s.grant).awv || (y.ms s.grant).wv) = true)
+    (hsil : ∀ y ∈ ys ++ [x0], SharedW.Silent y)
+    (h2 : (x2.ms s.grant).awv = false ∧ (x2.ms s.grant).wv = false ∧ (x2.ms s.grant).br = true) :
+    let m := SharedW.machine c
+    let g := s.grant
+    let s0 := m.runFrom s ys
+    let s1 := m.next s0 x0
+    let s2 := m.next s1 x1
+    let s3 := m.next s2 x2
+    (∀ o ∈ m.traceFrom s ys, o.error = false ∧ (o.toM g).awr = false ∧ (o.toM g).wr = false ∧ (o.toM g).bv = false) ∧
+    (m.out s0 x0).error = true ∧
+    (((m.out s1 x1).toM g).awr = (x1.ms g).awv ∧ ((m.out s1 x1).toM g).wr = (x1.ms g).wv ∧
+      ((m.out s1 x1).toM g).bv = false ∧ s2.lock = (if (x1.ms g).awv then 1 else 0)) ∧
+    (((m.out s2 x2).toM g).bv = true ∧ ((m.out s2 x2).toM g).bresp = RESP_SLVERR) ∧
+    (s3.grant = g ∧ s3.lock = 0 ∧ s3.tm = fInit t) := by
+  intro m g s0 s1 s2 s3
+  have hys : ∀ y ∈ ys, ((y.ms s.grant).awv || (y.ms s.grant).wv) = true ∧ SharedW.Silent y :=
+    fun y hy => ⟨hreq y (by simp [hy]), hsil y (by simp [hy])⟩
+  obtain ⟨a1, a2, a3, a4⟩ := SharedW.silent_waiting_any c ht ys s t hgn hl htm (by omega) (by omega) hys
+  have a3' : s0.tm = { count := 0, respond := false } := by
+    show ((SharedW.machine c).runFrom s ys).tm = _
+    rw [a3, hlen]; simp
+  have hg0 : s0.grant = s.grant := a1
+  obtain ⟨_, _, _, b4, b5, b6, b7⟩ := SharedW.silent_wait_step_any c ht s0 x0 (by rw [hg0]; exact hgn) a2
+    (by rw [a3']) (by rw [hg0]; exact hreq x0 (by simp)) (hsil x0 (by simp))
+  have hg1 : s1.grant = s.grant := by show (SharedW.next c s0 x0).grant = _; rw [b5, hg0]
+  have hr1 : s1.tm.respond = true := by
+    show (SharedW.next c s0 x0).tm.respond = true
+    rw [b7, a3']; simp [WaitTimer.done]
+  obtain ⟨c1, c2, c3, _, c5, c6, c7⟩ := SharedW.silent_absorb_step_any c ht s1 x1 (by rw [hg1]; exact hgn) b6 hr1
+    (by rw [hg1]; exact hreq x1 (by simp))
+  have hg2 : s2.grant = s.grant := by show (SharedW.next c s1 x1).grant = _; rw [c5, hg1]
+  have hr2 : s2.tm.respond = true := by show (SharedW.next c s1 x1).tm.respond = true; rw [c7]
+  have hl2 : s2.lock ≤ 1 := by
+    show (SharedW.next c s1 x1).lock ≤ 1
+    rw [c6]; split <;> omega
+  obtain ⟨d1, d2, _, d4, d5, d6⟩ := SharedW.silent_b_step_any c ht s2 x2 (by rw [hg2]; exact hgn) hl2 hr2
+    (by rw [hg2]; exact h2.1) (by rw [hg2]; exact h2.2.1) (by rw [hg2]; exact h2.2.2)
+  refine ⟨a4, ?_, ⟨?_, ?_, ?_, ?_⟩, ⟨?_, ?_⟩, ?_, d5, d6⟩
+  · show (SharedW.out c s0 x0).error = true
+    rw [b4, a3']; simp [WaitTimer.done]
+  · have h' := c1; rw [hg1] at h'; exact h'
+  · have h' := c2; rw [hg1] at h'; exact h'
+  · have h' := c3; rw [hg1] at h'; exact h'
+  · have h' := c6; rw [hg1] at h'; exact h'
+  · have h' := d1; rw [hg2] at h'; exact h'
+  · have h' := d2; rw [hg2] at h'; exact h'
+  · show (SharedW.next c s2 x2).grant = _; rw [d4, hg2]
+
+/-- Non-vacuity, the history of seeded change C11-r5m1 (`cfg11`, `t = 3`): a lone W towards a silent slave is timed
+    out and answered; the lock counter is 0 in every cycle (it would be 255 after cycle 5 without `& ~empty`), and
+    the AW that arrives later is timed out and answered in the same way. -/
+example :
+    let w1 : WM := { wv := true, br := true }
+    let idle : WM := { br := true }
+    let aw1 : WM := { awv := true, br := true }
+    let xs := [wIn w1 {}, wIn w1 {}, wIn w1 {}, wIn w1 {}, wIn w1 {}, wIn idle {}, wIn idle {},
+               wIn aw1 {}, wIn aw1 {}, wIn aw1 {}, wIn aw1 {}, wIn aw1 {}, wIn idle {}, wIn idle {}]
+    ((List.range 15).map fun m => ((SharedW.machine cfg11).run (xs.take m)).lock) =
+      [0, 0, 0, 0, 0, 0, 0, 0, 0, 0, 0, 0, 1, 0, 0] ∧
+    (bTrace cfg11 xs).map (·.1) =
+      [false, false, false, false, false, true, false, false, false, false, false, false, true, false] := by
+  decide
+
+end recoverAny
 
 /-! ## Wishbone `Crossbar`: `timeout_cycles` is ignored (known finding C11-crossbar-timeout-ignored) -/
 
